@@ -505,6 +505,7 @@ func checkC06(c *Ctx) {
 		}
 		c.Min("R6", "publications of "+field, n, 1)
 	}
+	checkSeatGetters(c, "R6")
 }
 
 // constStringsStoredTo: constant strings stored to the elements of a local array, in index order.
